@@ -1,121 +1,182 @@
-// Copyright 2013 The Go Authors. All rights reserved.
-// Use of this source code is governed by a BSD-style
-// license that can be found in the LICENSE file.
-
 package interp
 
-// Custom hashtable atop map.
-// For use when the key's equivalence relation is not consistent with ==.
-
-// The Go specification doesn't address the atomicity of map operations.
-// The FAQ states that an implementation is permitted to crash on
-// concurrent map access.
+// Insertion-ordered association maps.  All Go maps of the target program are
+// represented by *omap; iteration order is insertion order, which makes
+// replay deterministic.  Keys may contain symbolic parts: comparisons then
+// fork through the solver (see equals).
 
 import (
 	"go/types"
 )
 
-type hashable interface {
-	hash(t types.Type) int
-	eq(t types.Type, x any) bool
+type oent struct {
+	key  value
+	val  value
+	dead bool
 }
 
-type entry struct {
-	key   hashable
-	value value
-	next  *entry
-}
-
-// A hashtable atop the built-in map.  Since each bucket contains
-// exactly one hash value, there's no need to perform hash-equality
-// tests when walking the linked list.  Rehashing is done by the
-// underlying map.
-type hashmap struct {
+type omap struct {
 	keyType types.Type
-	table   map[int]*entry
-	length  int // number of entries in map
+	ents    []oent
+	live    int
+	idx     map[value]int // fast index for concrete basic keys
+	nsym    int           // number of live entries whose key has symbolic parts
+	noIdx   bool
 }
 
-// makeMap returns an empty initialized map of key type kt,
-// preallocating space for reserve elements.
-func makeMap(kt types.Type, reserve int64) value {
-	if usesBuiltinMap(kt) {
-		return make(map[value]value, reserve)
+func makeMap(kt types.Type) value {
+	return &omap{keyType: kt}
+}
+
+// indexable reports whether k is a concrete value usable as a native Go map key
+// with Go == coinciding with target equality.
+func indexable(k value) bool {
+	switch k.(type) {
+	case bool, int, int8, int16, int32, int64, uint, uint8, uint16, uint32, uint64, uintptr, string, float32, float64, *value, *chanObj:
+		return true
 	}
-	return &hashmap{keyType: kt, table: make(map[int]*entry, reserve)}
+	return false
 }
 
-// delete removes the association for key k, if any.
-func (m *hashmap) delete(k hashable) {
-	if m != nil {
-		hash := k.hash(m.keyType)
-		head := m.table[hash]
-		if head != nil {
-			if k.eq(m.keyType, head.key) {
-				m.table[hash] = head.next
-				m.length--
-				return
+func hasSym(v value) bool {
+	switch v := v.(type) {
+	case sym:
+		return true
+	case structure:
+		for _, x := range v {
+			if hasSym(x) {
+				return true
 			}
-			prev := head
-			for e := head.next; e != nil; e = e.next {
-				if k.eq(m.keyType, e.key) {
-					prev.next = e.next
-					m.length--
-					return
-				}
-				prev = e
+		}
+	case array:
+		for _, x := range v {
+			if hasSym(x) {
+				return true
+			}
+		}
+	case iface:
+		return hasSym(v.v)
+	}
+	return false
+}
+
+// find returns the index of the entry equal to k, or -1.
+func (m *omap) find(k value) int {
+	if m == nil {
+		return -1
+	}
+	if m.idx != nil && m.nsym == 0 && indexable(k) {
+		if i, ok := m.idx[k]; ok {
+			return i
+		}
+		return -1
+	}
+	ksym := hasSym(k)
+	for i := range m.ents {
+		e := &m.ents[i]
+		if e.dead {
+			continue
+		}
+		if !ksym && m.nsym == 0 {
+			if concreteEquals(m.keyType, k, e.key) {
+				return i
+			}
+			continue
+		}
+		if equals(m.keyType, k, e.key) {
+			return i
+		}
+	}
+	return -1
+}
+
+func (m *omap) lookup(k value) (value, bool) {
+	i := m.find(k)
+	if i < 0 {
+		return nil, false
+	}
+	return m.ents[i].val, true
+}
+
+func (m *omap) insert(k, v value) {
+	if i := m.find(k); i >= 0 {
+		m.ents[i].val = v
+		return
+	}
+	m.ents = append(m.ents, oent{key: k, val: v})
+	m.live++
+	if hasSym(k) {
+		m.nsym++
+	}
+	if indexable(k) && !m.noIdx {
+		if m.idx == nil {
+			m.idx = make(map[value]int)
+		}
+		m.idx[k] = len(m.ents) - 1
+	} else {
+		m.noIdx = true
+		m.idx = nil
+	}
+}
+
+func (m *omap) delete(k value) {
+	if m == nil {
+		return
+	}
+	i := m.find(k)
+	if i < 0 {
+		return
+	}
+	if hasSym(m.ents[i].key) {
+		m.nsym--
+	}
+	if m.idx != nil {
+		delete(m.idx, m.ents[i].key)
+	}
+	m.ents[i].dead = true
+	m.ents[i].key = nil
+	m.ents[i].val = nil
+	m.live--
+	if m.live == 0 {
+		m.ents = m.ents[:0]
+		m.idx = nil
+		m.noIdx = false
+		m.nsym = 0
+	}
+}
+
+func (m *omap) clear() {
+	if m == nil {
+		return
+	}
+	m.ents = nil
+	m.live = 0
+	m.idx = nil
+	m.nsym = 0
+	m.noIdx = false
+}
+
+func (m *omap) len() int {
+	if m == nil {
+		return 0
+	}
+	return m.live
+}
+
+type omapIter struct {
+	m   *omap
+	pos int
+}
+
+func (it *omapIter) next() tuple {
+	if it.m != nil {
+		for it.pos < len(it.m.ents) {
+			e := &it.m.ents[it.pos]
+			it.pos++
+			if !e.dead {
+				return tuple{true, e.key, e.val}
 			}
 		}
 	}
-}
-
-// lookup returns the value associated with key k, if present, or
-// value(nil) otherwise.
-func (m *hashmap) lookup(k hashable) value {
-	if m != nil {
-		hash := k.hash(m.keyType)
-		for e := m.table[hash]; e != nil; e = e.next {
-			if k.eq(m.keyType, e.key) {
-				return e.value
-			}
-		}
-	}
-	return nil
-}
-
-// insert updates the map to associate key k with value v.  If there
-// was already an association for an eq() (though not necessarily ==)
-// k, the previous key remains in the map and its associated value is
-// updated.
-func (m *hashmap) insert(k hashable, v value) {
-	hash := k.hash(m.keyType)
-	head := m.table[hash]
-	for e := head; e != nil; e = e.next {
-		if k.eq(m.keyType, e.key) {
-			e.value = v
-			return
-		}
-	}
-	m.table[hash] = &entry{
-		key:   k,
-		value: v,
-		next:  head,
-	}
-	m.length++
-}
-
-// len returns the number of key/value associations in the map.
-func (m *hashmap) len() int {
-	if m != nil {
-		return m.length
-	}
-	return 0
-}
-
-// entries returns a rangeable map of entries.
-func (m *hashmap) entries() map[int]*entry {
-	if m != nil {
-		return m.table
-	}
-	return nil
+	return tuple{false, nil, nil}
 }
